@@ -204,6 +204,11 @@ func (orderedMap Map[K, V]) MarshalJSON() ([]byte, error) {
 
 // FIXME: does not preserve order
 func (orderedMap *Map[K, V]) UnmarshalJSON(raw []byte) error {
+	// `null` is what a nil map is encoded to; decoding it is a no-op, as for every Go map
+	if bytes.Equal(bytes.TrimSpace(raw), []byte("null")) {
+		return nil
+	}
+
 	if orderedMap.records == nil {
 		orderedMap.records = make(map[K]V)
 	}
